@@ -44,6 +44,9 @@ CHECKS = {
     'C04': ('two-run symbolic execution of the real rate() in one path (original vs permuted presentation) + z3 equality of the posterior terms; sat models replayed on float code',
             'For the listed shapes, every weak order and every admissible permutation of teams (all n! for n <= 3; 4 teams in thorough) and player reversal: every player gets the identical real-valued posterior in both presentations, for all mu, sigma, beta, tau, kappa.',
             TRUST, '6/C04'),
+    'C16': ('two-run symbolic execution of the real rate()/predict_* in one path (original vs rescaled / shifted game) with solver-side hints sqrt(k^2 a) = k sqrt(a), exp(a) = exp(a2) exp(a-a2); z3 equality of result terms; sat models replayed on float code',
+            'For symbolic k in [1e-3, 1e3]: rate() of PL/BT-full/BT-part is homogeneous of degree 1 and all three predictions of all five models are scale-free; for symbolic shift s with equal team sizes: posterior mu shifts by s, sigma and predictions are unchanged, all five models; listed shapes and outcomes.',
+            TRUST, '6/C16'),
     'C18': ('symbolic execution of the real comparison dunders / ordinal() on exact binary64 proxies (z3 QF_FP, RNE) + per-path equivalence with the ordinal specification; foreign operands via lazy kind proxy; sorted() paths',
             'For each of the five rating classes and each of < <= > >= == != over ALL finite doubles mu, sigma: result <=> the corresponding comparison of mu-3*sigma (== : both fields equal); ordinal(z) = mu - z*sigma for symbolic z; foreign operands refused with ValueError / unequal; sorted() of 3 (4) ratings is ordinal-monotone on every path.',
             'Trusted: z3 FloatingPoint theory as IEEE-754 binary64 = CPython float. No real-number abstraction here.', '6/C18'),
